@@ -84,13 +84,13 @@ CHECKS = {
                         "lax.delete_edges", "lax.map_nodes", "lax.serde_roundtrip", "lax.h.delete_nodes_witness"],
     },
     "C12": {
-        "quick": {"gen": [G("MC_C12", "MC_C12_quick.cfg"), G("MC_C12", "MC_C12_wide.cfg")], "drive": [D("strict", 1500, only=["functor."])]},
-        "thorough": {"gen": [G("MC_C12", "MC_C12_thorough.cfg"), G("MC_C12", "MC_C12_thorough_b.cfg"), G("MC_C12", "MC_C12_wide.cfg")], "drive": [D("strict", 20000, only=["functor."])]},
+        "quick": {"gen": [G("MC_C12", "MC_C12_quick.cfg"), G("MC_C12", "MC_C12_wide.cfg"), G("MC_C12", "MC_C12_three.cfg")], "drive": [D("strict", 2500, only=["functor.", "laxf.dyn", "laxf.identity"])]},
+        "thorough": {"gen": [G("MC_C12", "MC_C12_thorough.cfg"), G("MC_C12", "MC_C12_thorough_b.cfg"), G("MC_C12", "MC_C12_wide.cfg"), G("MC_C12", "MC_C12_three.cfg")], "drive": [D("strict", 30000, only=["functor.", "laxf.dyn", "laxf.identity"])]},
         "require_ops": ["functor.map_arrow", "laxf.dyn_map_arrow", "functor.laws"],
     },
     "C13": {
-        "quick": {"gen": [G("MC_C12", "MC_C13_quick.cfg")]},
-        "thorough": {"gen": [G("MC_C12", "MC_C13_thorough.cfg"), G("MC_C12", "MC_C13_quick.cfg")]},
+        "quick": {"gen": [G("MC_C12", "MC_C13_quick.cfg"), G("MC_C12", "MC_C13_two.cfg")], "drive": [D("strict", 1500, only=["laxf.map_arrow_witness"])]},
+        "thorough": {"gen": [G("MC_C12", "MC_C13_thorough.cfg"), G("MC_C12", "MC_C13_quick.cfg"), G("MC_C12", "MC_C13_two.cfg")], "drive": [D("strict", 20000, only=["laxf.map_arrow_witness"])]},
         "require_ops": ["laxf.try_define_map_arrow", "laxf.map_arrow_witness"],
     },
     "C14": {
@@ -109,13 +109,13 @@ CHECKS = {
         "require_ops": ["strict.eval"],
     },
     "C17": {
-        "quick": {"gen": [G("MC_C15", "MC_C17_quick.cfg"), G("MC_C15", "MC_C15_wide.cfg")], "drive": [D("graphs", 3000, only=["strict.is_", "hyper.", "hook.node_adjacency"])], "profiles": ["debug", "release"]},
-        "thorough": {"gen": [G("MC_C15", "MC_C17_thorough.cfg"), G("MC_C15", "MC_C15_wide.cfg")], "drive": [D("graphs", 50000, only=["strict.is_", "hyper.", "hook.node_adjacency"])], "profiles": ["debug", "release"]},
+        "quick": {"gen": [G("MC_C15", "MC_C17_quick.cfg"), G("MC_C15", "MC_C15_wide.cfg"), G("MC_C15", "MC_C17_tail.cfg")], "drive": [D("graphs", 3000, only=["strict.is_", "hyper.", "hook.node_adjacency"])], "profiles": ["debug", "release"]},
+        "thorough": {"gen": [G("MC_C15", "MC_C17_thorough.cfg"), G("MC_C15", "MC_C15_wide.cfg"), G("MC_C15", "MC_C17_tail.cfg")], "drive": [D("graphs", 50000, only=["strict.is_", "hyper.", "hook.node_adjacency"])], "profiles": ["debug", "release"]},
         "require_ops": ["strict.is_acyclic", "strict.is_monogamous", "hyper.in_degree", "hyper.out_degree", "hyper.is_acyclic"],
     },
     "C18": {
-        "quick": {"gen": [G("MC_C18", "MC_C18_quick.cfg"), G("MC_C18", "MC_C18_mono.cfg")], "drive": [D("graphs", 4000, only=["arrow."])]},
-        "thorough": {"gen": [G("MC_C18", "MC_C18_thorough.cfg"), G("MC_C18", "MC_C18_mono.cfg")], "drive": [D("graphs", 60000, only=["arrow."])]},
+        "quick": {"gen": [G("MC_C18", "MC_C18_quick.cfg"), G("MC_C18", "MC_C18_mono.cfg"), G("MC_C18", "MC_C18_two.cfg")], "drive": [D("graphs", 4000, only=["arrow."])]},
+        "thorough": {"gen": [G("MC_C18", "MC_C18_thorough.cfg"), G("MC_C18", "MC_C18_mono.cfg"), G("MC_C18", "MC_C18_two.cfg")], "drive": [D("graphs", 60000, only=["arrow."])]},
         "require_ops": ["arrow.new", "arrow.is_monomorphism", "arrow.is_convex_subgraph"],
     },
     "C19": {
